@@ -80,6 +80,14 @@ def check_tables(run, tables, ex, jnp, rng, tier):
                     scale = 1 + maxabs(want_u)
                     if got_u.shape != u.shape or maxabs(got_u - want_u) > 1e-10 * scale * (1 + zabs.max()):
                         run.violation(dict(key, what="stepper(u) vs analytic"), {"err": maxabs(got_u - want_u), "L": L, "dt": dt})
+                    # states WITH Nyquist content: the exact solution is still multiplier x spectrum whenever the multiplier is real on the
+                    # self-conjugate lines (Layout.Realify leaves real multiples of real entries alone): every symbol with even orders only
+                    if np.all(np.abs(np.imag(z)) == 0):
+                        uw = rng.standard_normal((1,) + (N,) * D)
+                        got_w = np.asarray(st(jnp.asarray(uw)))
+                        want_w = exact_evolve(ex, jnp, uw, z, D, N)
+                        if got_w.shape != uw.shape or maxabs(got_w - want_w) > 1e-10 * (1 + maxabs(want_w)) * (1 + zabs.max()):
+                            run.violation(dict(key, what="stepper(white noise) vs analytic"), {"err": maxabs(got_w - want_w), "L": L, "dt": dt})
         # the normalized / difficulty interfaces of the generic family
         if cls == "GeneralLinear":
             check_generic_family(run, D, N, table, ex, jnp, rng)
